@@ -161,19 +161,20 @@ package keeper
 // remaining collateral; a partial bid moves the auction record by exactly what moved in custody; a closing bid of a
 // vault-initiated auction empties the collateral side of custody and retires the whole vault from the published totals.
 //@ func (k Keeper) PlaceDutchAuctionBid
-//@   property C10, C01
+//@   property C10, C01, C11
+//@   modular
 //@   let lv = K("liquidationsV2").GetLockedVault(ctx, auctionData.AppId, auctionData.LockedVaultId).0
 //@   let am = modaddr("auctionsV2")
 //@   let dd = auctionData.DebtToken.Denom
 //@   let cd = auctionData.CollateralToken.Denom
 //@   let A = auctionData
 //@   let hadAuction = k.GetAuction(ctx, auctionID).1 == nil
-//@   requires #valid: validaddr(bidder) && addr(bidder) != am && dd != cd
+//@   requires assumed #valid: validaddr(bidder) && addr(bidder) != am && dd != cd
 //@   requires #auction-keyed: A.AuctionId == auctionID
-//@   requires #nonneg: A.DebtToken.Amount > 0 && A.CollateralToken.Amount >= 0 && A.BonusAmount >= 0 && bid.Amount >= 0 && A.CollateralTokenAuctionPrice > 0
-//@   requires #owner: validaddr(lv.Owner) && addr(lv.Owner) != am
-//@   requires #totals-keyed: K("vault").GetAppExtendedPairVaultMappingData(ctx, A.AppId, lv.ExtendedPairId).1 && K("vault").GetAppExtendedPairVaultMappingData(ctx, A.AppId, lv.ExtendedPairId).0.AppId == A.AppId && K("vault").GetAppExtendedPairVaultMappingData(ctx, A.AppId, lv.ExtendedPairId).0.ExtendedPairId == lv.ExtendedPairId
-//@   requires #fee-book: ite(K("collector").GetNetFeeCollectedData(ctx, A.AppId, A.CollateralAssetId).1, K("collector").GetNetFeeCollectedData(ctx, A.AppId, A.CollateralAssetId).0.NetFeesCollected, 0) >= 0
+//@   requires assumed #nonneg: A.DebtToken.Amount > 0 && A.CollateralToken.Amount >= 0 && A.BonusAmount >= 0 && bid.Amount >= 0 && A.CollateralTokenAuctionPrice > 0
+//@   requires assumed #owner: validaddr(lv.Owner) && addr(lv.Owner) != am
+//@   requires assumed #totals-keyed: K("vault").GetAppExtendedPairVaultMappingData(ctx, A.AppId, lv.ExtendedPairId).1 && K("vault").GetAppExtendedPairVaultMappingData(ctx, A.AppId, lv.ExtendedPairId).0.AppId == A.AppId && K("vault").GetAppExtendedPairVaultMappingData(ctx, A.AppId, lv.ExtendedPairId).0.ExtendedPairId == lv.ExtendedPairId
+//@   requires assumed #fee-book: ite(K("collector").GetNetFeeCollectedData(ctx, A.AppId, A.CollateralAssetId).1, K("collector").GetNetFeeCollectedData(ctx, A.AppId, A.CollateralAssetId).0.NetFeesCollected, 0) >= 0
 //@   letpost a1 = k.GetAuction(ctx, auctionID)
 //@   letpost paid = old(bal(addr(bidder), dd)) - bal(addr(bidder), dd)
 //@   ensures [C10] #c10-partial-record-moves-with-custody: err == nil && a1.1 == nil && !isAutoBid && addr(bidder) != addr(lv.Owner) ==> \
@@ -189,6 +190,7 @@ package keeper
 //@       mapColl(K("vault"), ctx, A.AppId, lv.ExtendedPairId) == old(mapColl(K("vault"), ctx, A.AppId, lv.ExtendedPairId)) - lv.CollateralToken.Amount
 //@   ensures [C01] #c01-close-retires-debt-from-totals: err == nil && a1.1 != nil && lv.InitiatorType == "vault" ==> \
 //@       mapMint(K("vault"), ctx, A.AppId, lv.ExtendedPairId) == old(mapMint(K("vault"), ctx, A.AppId, lv.ExtendedPairId)) - (lv.TargetDebt.Amount - lv.FeeToBeCollected)
+//@   ensures [C11] #c11-limit-bid-books-untouched: (forall d, c, p, a :: k.GetUserLimitBidData(ctx, d, c, p, a) == old(k.GetUserLimitBidData(ctx, d, c, p, a))) && (forall d, c :: k.GetLimitBidProtocolDataByAssetID(ctx, d, c) == old(k.GetLimitBidProtocolDataByAssetID(ctx, d, c))) && (forall d, c, p :: k.GetUserLimitBidDataByPremium(ctx, d, c, p) == old(k.GetUserLimitBidDataByPremium(ctx, d, c, p)))
 
 // English auction bid, second generation (C11): an accepted bid improves on the standing one by at least the bid factor
 // (surplus: higher payment; debt: smaller lot), the outbid bidder is refunded the standing payment in the same call,
@@ -239,3 +241,28 @@ package keeper
 //@   ensures #c11-payment-leaves-custody: result == nil ==> bal(am, dd) == old(bal(am, dd)) - A.DebtToken.Amount
 //@   ensures #c11-lot-not-kept-in-custody: result == nil ==> bal(am, cd) == old(bal(am, cd)) - ite(lv.InitiatorType == "surplus" || lv.InitiatorType == "debt", 0, A.CollateralToken.Amount)
 //@   ensures #c11-auction-removed: result == nil ==> k.GetAuction(ctx, A.AuctionId).1 != nil
+
+
+// The list of limit bids of a pair at one premium: a deterministic function of the limit-bid store.
+//@ func (k Keeper) GetUserLimitBidDataByPremium
+//@   property C11
+//@   pure
+
+// Automatic fill of limit bids, per-auction step (C11), for a premium band that holds exactly one limit bid: the recorded
+// total of limit bids of the pair is lowered by exactly the part of that deposit the fill consumed (the whole deposit when
+// the record is removed), so recorded total minus the sum of deposits is unchanged by a committed step.
+//@ func (k Keeper) LimitOrderBid$1
+//@   property C11
+//@   let A = auction
+//@   let prem = trunc(decMul(decQuo(auction.CollateralTokenOraclePrice - auction.CollateralTokenAuctionPrice, auction.CollateralTokenOraclePrice), 100 * ONE))
+//@   let bids = k.GetUserLimitBidDataByPremium(ctx, auction.DebtAssetId, auction.CollateralAssetId, prem).0
+//@   let T0 = k.GetLimitBidProtocolDataByAssetID(ctx, auction.DebtAssetId, auction.CollateralAssetId).0.BidValue
+//@   let b0 = bids[0]
+//@   requires #one-bid-in-the-band: k.GetUserLimitBidDataByPremium(ctx, auction.DebtAssetId, auction.CollateralAssetId, prem).1 ==> len(bids) == 1 && b0.PremiumDiscount == prem && k.GetUserLimitBidData(ctx, auction.DebtAssetId, auction.CollateralAssetId, prem, b0.BidderAddress).1 && k.GetUserLimitBidData(ctx, auction.DebtAssetId, auction.CollateralAssetId, prem, b0.BidderAddress).0 == b0
+//@   requires #total-keyed: k.GetLimitBidProtocolDataByAssetID(ctx, auction.DebtAssetId, auction.CollateralAssetId).1 && k.GetLimitBidProtocolDataByAssetID(ctx, auction.DebtAssetId, auction.CollateralAssetId).0.DebtAssetId == auction.DebtAssetId && k.GetLimitBidProtocolDataByAssetID(ctx, auction.DebtAssetId, auction.CollateralAssetId).0.CollateralAssetId == auction.CollateralAssetId
+//@   requires #amounts: auction.DebtToken.Amount > 0 && b0.DebtToken.Amount > 0 && auction.CollateralTokenOraclePrice > 0
+//@   letpost T1 = k.GetLimitBidProtocolDataByAssetID(ctx, auction.DebtAssetId, auction.CollateralAssetId).0.BidValue
+//@   letpost dep1 = ite(k.GetUserLimitBidData(ctx, auction.DebtAssetId, auction.CollateralAssetId, prem, b0.BidderAddress).1, k.GetUserLimitBidData(ctx, auction.DebtAssetId, auction.CollateralAssetId, prem, b0.BidderAddress).0.DebtToken.Amount, 0)
+//@   loop 0 invariant #books: (idx0 == 0 && k.GetLimitBidProtocolDataByAssetID(ctx, auction.DebtAssetId, auction.CollateralAssetId) == old(k.GetLimitBidProtocolDataByAssetID(ctx, auction.DebtAssetId, auction.CollateralAssetId)) && k.GetUserLimitBidData(ctx, auction.DebtAssetId, auction.CollateralAssetId, prem, b0.BidderAddress) == old(k.GetUserLimitBidData(ctx, auction.DebtAssetId, auction.CollateralAssetId, prem, b0.BidderAddress))) || \
+//@       (idx0 == 1 && k.GetLimitBidProtocolDataByAssetID(ctx, auction.DebtAssetId, auction.CollateralAssetId).0.BidValue == T0 - (b0.DebtToken.Amount - ite(k.GetUserLimitBidData(ctx, auction.DebtAssetId, auction.CollateralAssetId, prem, b0.BidderAddress).1, k.GetUserLimitBidData(ctx, auction.DebtAssetId, auction.CollateralAssetId, prem, b0.BidderAddress).0.DebtToken.Amount, 0)))
+//@   ensures #c11-fill-lowers-total-by-consumed-deposit: result == nil && old(k.GetUserLimitBidDataByPremium(ctx, auction.DebtAssetId, auction.CollateralAssetId, prem).1) && auction.CollateralTokenOraclePrice > auction.CollateralTokenAuctionPrice ==> T1 == T0 - (b0.DebtToken.Amount - dep1)
